@@ -27,6 +27,18 @@ func init() {
 		"sxParam":   sxParam,
 		"sxOpt":     sxOpt,
 		"sxNote":    sxNote,
+		"sxSeedUsed": func(fr *frame, args []value) value {
+			// (seed given to rand.Seed, is it a fixed value?): a seed computed from
+			// the clock is not fixed
+			ps := fr.i.ps
+			if !ps.seeded {
+				return tuple{int64(0), false}
+			}
+			if ps.lastSeedSym {
+				return tuple{int64(0), false}
+			}
+			return tuple{ps.lastSeed, true}
+		},
 		"sxOutput": func(fr *frame, args []value) value {
 			v := normStr(fr.i.ps.out)
 			fr.i.ps.out = nil
@@ -210,6 +222,8 @@ func sxOpt(fr *frame, args []value) value {
 	switch name {
 	case "nondet-map":
 		ps.nondetMap = on
+	case "nondet-map-all":
+		ps.nondetMap, ps.nondetMapAll = on, on
 	case "explore-sched":
 		ps.sched.explore = on
 	case "prob":
